@@ -250,6 +250,18 @@ def post_scenarios(ctx):
         for sd in (1, 2, 3, 4):
             for z in range(-zr, zr + 1):
                 out.append(make_post(rnd, dim, force=(z, sd), zr=zr))
+    # the far lower tail (threshold many predictive standard deviations below the mean): Phi underflows single precision
+    # long before the double-precision quotient phi / Phi does; small slopes keep the integer arithmetic inside 32 bits
+    for dim in (1, 2):
+        for sd in (1, 2):
+            for z in (-16, -13, -10, -9, -8, -6, -5):
+                sc = make_post(rnd, dim, force=(z, sd), zr=zr)
+                p0 = sc["points"][0]
+                p0["gmu"] = [rnd.randint(-1, 1) for _ in range(dim)]
+                p0["gv"] = [rnd.randint(-1, 1) for _ in range(dim)]
+                if all(g == 0 for g in p0["gmu"] + p0["gv"]):
+                    p0["gmu"][0] = 1
+                out.append(sc)
     n_sweep = len(out)
     for _ in range(40 if ctx.quick else 400):
         out.append(make_post(rnd, rnd.choice([1, 2, 2, 3]), zr=zr))
